@@ -81,6 +81,7 @@ type tcfg struct {
 	Cache    int
 	Prefetch int
 	upTo     int // largest entry-set size enumerated for this configuration (not part of the table)
+	fullTo   int // up to this set size every per-entry assignment of value-size classes is enumerated; above it all entries share one class (0 = upTo)
 }
 
 func (c tcfg) String() string {
@@ -430,7 +431,11 @@ func main() {
 	} else {
 		for _, b := range []int{64, 128, 4096} {
 			for _, bl := range []float64{0.01, 0} {
-				cfgs = append(cfgs, tcfg{Block: b, Bloom: bl, upTo: 4})
+				c := tcfg{Block: b, Bloom: bl, upTo: 4, fullTo: 3}
+				if b == 128 && bl > 0 {
+					c.fullTo = 4
+				}
+				cfgs = append(cfgs, c)
 			}
 		}
 		cfgs = append(cfgs, tcfg{Block: 128, Bloom: 0.01, Cache: 8, upTo: 3}, tcfg{Block: 64, Prefetch: 2, upTo: 3}, tcfg{Block: 64, Cache: 8, Prefetch: 2, upTo: 3},
@@ -462,14 +467,24 @@ func main() {
 						p.TimedOut, stop = true, true
 						return
 					}
-					// every assignment of a value-size class to every entry
+					// every assignment of a value-size class to every entry (beyond fullTo: one class for all entries)
 					n := 1
 					for i := 0; i < k; i++ {
 						n *= len(vc)
 					}
+					uniform := cfg.fullTo > 0 && k > cfg.fullTo
+					if uniform {
+						n = len(vc)
+					}
 					for a := 0; a < n; a++ {
 						tc := tcase{Cfg: cfg}
 						x := a
+						if uniform {
+							x = 0
+							for i := 0; i < k; i++ {
+								x = x*len(vc) + a
+							}
+						}
 						for i, ui := range idx {
 							// meta / expiry follow position and size class so that every (meta, expiry) occurs with every class
 							tc.Entries = append(tc.Entries, entry{K: uni[ui], VLen: vc[x%len(vc)], Meta: metas[(i+x)%len(metas)], Exp: exps[(i+a)%len(exps)]})
@@ -509,7 +524,11 @@ func main() {
 	})
 	var cfgNames []string
 	for _, c := range cfgs {
-		cfgNames = append(cfgNames, fmt.Sprintf("%s sets<=%d", c, c.upTo))
+		full := c.fullTo
+		if full == 0 {
+			full = c.upTo
+		}
+		cfgNames = append(cfgNames, fmt.Sprintf("%s sets<=%d (all per-entry value-size assignments up to size %d, one class for all entries above)", c, c.upTo, full))
 	}
 	outcomes := total.Card("outcomes")
 	r.RequireOutcomes(outcomes, 8)
